@@ -512,6 +512,24 @@ func emit(id string, k caseT, st *hx.Stats) (string, bool) {
 	if st != nil && o.obsFired {
 		st.Count("observer_panic_swallowed")
 	}
+	if k.Q.Panic && k.Conc == nil {
+		if o.panicked {
+			// no recovery middleware (plain router): the panic reached the caller, there is no answer to judge
+			if st != nil {
+				st.Count("handler_panic_propagated_no_answer")
+			}
+			return "", false
+		}
+		if len(o.ran) == 1 && o.status == http.StatusInternalServerError {
+			// recovered by the app's recovery middleware: the handler ran (and reported), the answer is the middleware's 500.
+			// The statement does not speak about the status of a panicking handler; it is reported as the handler's own 200 so
+			// that handler / Version() / the five headers are judged by the ordinary oracle
+			o.status = http.StatusOK
+			if st != nil {
+				st.Count("handler_panic_recovered_headers_judged")
+			}
+		}
+	}
 	return emitObs(id, kk, o, st), true
 }
 
@@ -1060,6 +1078,11 @@ func genCase(r *hx.Rand) caseT {
 	if r.Chance(1, 10) {
 		k.Q.Cancelled = true
 	}
+	if c.ViaApp && r.Chance(1, 3) {
+		// the handler panics after it has reported; the app's default recovery middleware answers 500 — the lifecycle
+		// headers the router set before the chain ran belong to that answer too
+		k.Q.Panic = true
+	}
 	if c.WarmupAfter > 0 && c.WarmupAfter < len(k.R) && r.Chance(2, 3) { // mostly ask for a route registered after the warm-up
 		rt := k.R[r.Range(c.WarmupAfter, len(k.R)-1)]
 		keep := k.Q
@@ -1141,13 +1164,30 @@ func concBatches(seed uint64, r *hx.Rand, n int, st *hx.Stats, w func(string)) {
 	for _, l := range runConc(fmt.Sprintf("c13c-%d-0", seed), demo, qs, G, 600, -1, st) {
 		w(l)
 	}
+	// the same with PATH detection (two patterns), a custom detector and a header: per-detector state shared between
+	// requests for different versions (seeded C13-25: a memo of the last "v"+segment inside the path detector)
+	demo2 := caseT{
+		C: cfgT{Opts: []optT{{K: "P", A: "/v{version}/"}, {K: "P", A: "/api/{version}/"}, {K: "C", N: 1}, {K: "H", A: "X-API-Version"}},
+			Default: "v1", Valid: []string{"v1", "v2", "v3"}, SendVH: true, Now: 1750000000, LCs: []lcT{{Ver: "v3", Deprecated: true}}},
+	}
+	var qs2 []reqT
+	for _, v := range []string{"v1", "v2", "v3"} {
+		demo2.R = append(demo2.R, routeT{Versioned: true, Ver: v, Method: "GET", Path: "/users"})
+		qs2 = append(qs2, reqT{Method: "GET", Path: "/" + v + "/users"}, reqT{Method: "GET", Path: "/api/" + v + "/users"})
+	}
+	qs2 = append(qs2, reqT{Method: "GET", Path: "/users", Hdr: [][2]string{{"X-API-Version", "v2"}}},
+		reqT{Method: "GET", Path: "/v1/users", Hdr: [][2]string{{custHeader(1), "v3"}}})
+	for _, l := range runConc(fmt.Sprintf("c13c-%d-p", seed), demo2, qs2, G, 25000, -1, st) {
+		w(l)
+	}
 	for b := 1; b <= n; b++ {
 		var k caseT
-		for try := 0; try < 50; try++ {
+		need := []string{"A", "P", "A", "P", "C", "Q"}[b%6] // the detector kind the batch is about
+		for try := 0; try < 80; try++ {
 			k = genCase(r)
 			hasA := false
 			for _, op := range k.C.Opts {
-				if op.K == "A" {
+				if op.K == need {
 					hasA = true
 				}
 			}
